@@ -81,6 +81,8 @@ def _arg_ident(a):
         return a[1]
     if a[0] == 'un' and a[1] == 'addr':
         return _arg_ident(a[2])
+    if a[0] == 'attr':
+        return a[2].lstrip('_') or None
     return None
 
 
@@ -106,6 +108,17 @@ def _role_check(ctx, file, fname, line, callee, args, proto, lang):
                 if idents[mpos] == pn[k] or idents[mpos] in pn:
                     bad = (k, a, mpos)
                     break
+    if not bad:
+        # duplicated role: the value named like parameter `a` sits at its own position AND at another position of the same type class
+        for k, a in enumerate(idents):
+            if a is None or a == pn[k] or a not in pn:
+                continue
+            mpos = pn.index(a)
+            if idents[mpos] == a and tclass(proto.params[mpos][1]) == tclass(proto.params[k][1]):
+                ctx.violation('R-SIG', file, fname, 'call %s arg %s twice' % (callee, a),
+                              '`%s` is passed both as parameter `%s` (position %d) and as parameter `%s` (position %d) of %s: the second role does not receive its own value'
+                              % (fmt(args[k]), a, mpos, pn[k], k, callee), line=line)
+                return True
     if bad:
         k, a, mpos = bad
         ctx.violation('R-SIG', file, fname, 'call %s arg %s' % (callee, a),
